@@ -233,15 +233,17 @@ def run_sweep(chk):
                 if key in EAGER:
                     chk.violation("lazy:flatten:outer-infinite" if name == "flatten" else f"lazy:{name}:eager-documented",
                                   f"`let a = {bad_inf[0][3]};` : {bad_inf[0][1]} ({EAGER[key]})",
-                                  {"src": f"let a = {bad_inf[0][3]};", "get": ["a"], "limits": LIMITS, "got": bad_inf[0][1]})
+                                  {"src": f"let a = {bad_inf[0][3]};", "get": ["a"], "limits": LIMITS, "got": bad_inf[0][1],
+                                   "expect_no_violation": True})
+                    continue
                 else:
                     chk.violation(f"lazy:{name}:infinite-source",
                                   f"`let a = {bad_inf[0][3]};` under {LIMITS}: {bad_inf[0][1]} — a prefix of {PREFIX} elements of an adaptor over an "
                                   f"infinite generator must not need the whole generator",
                                   {"src": f"let a = {bad_inf[0][3]};", "get": ["a"], "limits": LIMITS, "got": bad_inf[0][1],
-                                   "expected": "a value (the first elements)"})
-                continue
-            chk.count("sweep:adaptor:infinite-ok")
+                                   "expect_no_violation": True})
+            else:
+                chk.count("sweep:adaptor:infinite-ok")
         else:
             if bad_inf and len(bad_inf) == len(infs):
                 # walks the whole generator for this predicate variant
@@ -262,12 +264,17 @@ def run_sweep(chk):
             t = [r for r in runs if r[0] == f"trunc{K}"][0]
             p = [r for r in runs if r[0] == f"poison{K}"][0]
             c = [r for r in runs if r[0] == f"clean{K}"][0]
-            # conclusive when cutting the source before K does not matter to the prefix that is consumed
-            full = (t[1] == c[1] and t[2] == c[2] and not str(t[1]).startswith("viol"))
-            if not full:
-                continue          # the truncated source is too short for this adaptor: try the longer one
+            # conclusive when cutting the source before K does not change the prefix that is consumed
+            if t[1] != c[1] or str(t[1]).startswith("viol"):
+                continue          # the truncated source is too short for this function: try the longer one
             decided = True
-            if p[1] != t[1] or p[2] != t[2]:
+            if t[2] != c[2]:
+                chk.violation(f"lazy:{name}:evaluates-beyond-prefix",
+                              f"`let a = {c[3]};` gives {str(c[1])[:100]} with {c[2]} callback calls; on the source cut after {K} elements the same "
+                              f"result needs {t[2]} calls: consuming a prefix evaluated elements of the source that the prefix does not need",
+                              {"src": f"let a = {c[3]};", "get": ["a"], "limits": LIMITS, "got": c[1], "calls": c[2],
+                               "truncated": f"let a = {t[3]};", "expected_calls": t[2]})
+            elif p[1] != t[1] or p[2] != t[2]:
                 chk.violation(f"lazy:{name}:needs-more-than-prefix",
                               f"`let a = {p[3]};` gives {str(p[1])[:120]} ({p[2]} callback calls); on the source cut before the poisoned "
                               f"element {K} it gives {str(t[1])[:120]} ({t[2]} calls): consuming a prefix evaluated the source beyond it",
